@@ -94,6 +94,16 @@ func (x *exec) frozenWrite() {
 	x.recordFailure("frozen: store into an object that must not be modified ("+x.frozenWhat+")", false, m)
 }
 
+// frozenMapWrite: an insert into / delete from a map that must not be modified.
+func (x *exec) frozenMapWrite(m *omap) {
+	for _, f := range x.frozenMaps {
+		if f == m {
+			x.frozenWrite()
+			return
+		}
+	}
+}
+
 // freeze marks every memory cell reachable from v as read-only.
 func (x *exec) freeze(v value, what string) {
 	if x.frozen == nil {
